@@ -23,8 +23,8 @@ Definition model_call (c : lcall) : res :=
   | CLength l => f_length l
   | CSeparator l => f_separator l
   | CIsBracketed l => f_is_bracketed l
-  | CNth l n => f_nth l (i64_of_literal n)
-  | CSetNth l n x => f_set_nth l (i64_of_literal n) x
+  | CNth l n => match i64_of_literal n with Some k => f_nth l k | None => RErr end
+  | CSetNth l n x => match i64_of_literal n with Some k => f_set_nth l k x | None => RErr end
   | CAppend l x s => f_append l x s
   | CJoin a b s k => f_join a b s k
   | CIndex l x => f_index l x
